@@ -462,6 +462,22 @@ func runC16(r *ev.Run, rep *ev.ReplayDoc) ev.Summary {
 			cases = append(cases, c16Case{Mech: mech, User: "user", Pass: genSecret(rng), Logger: lgr, OptIn: true, TLS: isPlus(mech)})
 		}
 	}
+	// every SCRAM mechanism with passwords its password preparation refuses, every logger
+	for mi, mech := range mechs {
+		if !strings.HasPrefix(mech, "SCRAM") {
+			continue
+		}
+		for pi, bad := range []string{"\t", "\u1100", "\u00ad", "\u200b", "\u0378"} {
+			lgr := loggers[(mi+pi)%len(loggers)]
+			rng := r.Rng("c16badpass", mi*10+pi)
+			p := genSecret(rng)
+			c := c16Case{Mech: mech, User: "user", Pass: p[:6] + bad + p[6:], Logger: lgr, TLS: isPlus(mech), ExplicitOff: pi%2 == 0}
+			if !c.TLS && pi%2 == 1 {
+				c.Via = "direct"
+			}
+			cases = append(cases, c)
+		}
+	}
 	// every mechanism with an empty user name (a response of the exchange is an empty line then), every logger
 	for mi, mech := range mechs {
 		for li, lgr := range loggers {
@@ -480,6 +496,11 @@ func runC16(r *ev.Run, rep *ev.ReplayDoc) ev.Summary {
 		c.TLS = isPlus(c.Mech) || rng.Intn(4) == 0
 		if rng.Intn(8) == 0 {
 			c.User = "" // an account without a user name: the response that carries it is an empty line
+		}
+		if rng.Intn(8) == 0 {
+			// a password the SCRAM password preparation refuses (the client gives the exchange up after the server-first
+			// message); to the other mechanisms it is a password like any other
+			c.Pass = c.Pass[:5] + gen.Pick(rng, []string{"\t", "\u1100", "\u00ad", "\u200b", "\u0378", "\x01"}) + c.Pass[5:]
 		}
 		if rng.Intn(2) == 0 {
 			c.Fault = gen.Pick(rng, faults[1:])
